@@ -598,6 +598,148 @@ def real_loop_witness(falcon):
     return asyncio.new_event_loop().run_until_complete(main())
 
 
+# --------------------------------------------------------------------------- the CONFIGURED capacity
+
+
+def configured_capacity_runs(falcon, capseq, mode):
+    """Sessions created by falcon.asgi.App for the capacities [capseq], on the stock asyncio loop.
+    mode 'reused': ONE app serves the connections one after the other and the application sets
+    app.ws_options.max_receive_queue before each; 'fresh': a new app per capacity, configured before its
+    first connection; 'direct': the modelled object itself, WebSocket(..., capacity, ...), under the same
+    driver.  Per connection: (messages pulled from the server while the application idles after accept(),
+    the texts the application then receives)."""
+    import falcon.asgi
+    from falcon.asgi.ws import WebSocket
+    nmsg = max(capseq) + 3
+    box = {}
+
+    class Server:
+        def __init__(self, with_connect):
+            self.events = ([{'type': 'websocket.connect'}] if with_connect else []) + [
+                {'type': 'websocket.receive', 'text': 'm%d' % i} for i in range(nmsg)]
+            self.pulled = 0
+
+        async def receive(self):
+            await asyncio.sleep(0)
+            if not self.events:
+                await asyncio.get_running_loop().create_future()
+            e = self.events.pop(0)
+            if e['type'] == 'websocket.receive':
+                self.pulled += 1
+            return e
+
+        async def send(self, e):
+            await asyncio.sleep(0)
+
+    async def session(ws, server):
+        await ws.accept()
+        for _ in range(8 * nmsg + 20):
+            await asyncio.sleep(0)      # the background reader runs as far as it is allowed to
+        pulled = server.pulled
+        got = [await ws.receive_text() for _ in range(nmsg)]
+        await ws.close()
+        box['r'] = (pulled, got)
+
+    class Res:
+        async def on_websocket(self, req, ws):
+            await session(ws, box['server'])
+
+    scope = {'type': 'websocket', 'asgi': {'version': '3.0', 'spec_version': '2.3'}, 'http_version': '1.1',
+             'scheme': 'ws', 'path': '/ws', 'raw_path': b'/ws', 'query_string': b'', 'root_path': '',
+             'headers': [(b'host', b'example.org')], 'client': ('127.0.0.1', 4242),
+             'server': ('127.0.0.1', 80), 'subprotocols': []}
+
+    def new_app():
+        a = falcon.asgi.App()
+        a.add_route('/ws', Res())
+        return a
+
+    async def main():
+        out = []
+        app = new_app() if mode == 'reused' else None
+        opts = falcon.asgi.App().ws_options
+        for cap in capseq:
+            box.pop('r', None)
+            if mode == 'direct':
+                srv = Server(False)
+                ws = WebSocket('2.3', dict(scope), srv.receive, srv.send, opts.media_handlers, cap, {})
+                await asyncio.wait_for(session(ws, srv), 20)
+            else:
+                a = app if mode == 'reused' else new_app()
+                a.ws_options.max_receive_queue = cap
+                srv = box['server'] = Server(True)
+                await asyncio.wait_for(a(dict(scope), srv.receive, srv.send), 20)
+            out.append(box.get('r'))
+        return out
+    aio_events._set_running_loop(None)
+    loop = asyncio.new_event_loop()
+    try:
+        return loop.run_until_complete(main())
+    finally:
+        loop.close()
+
+
+def configured_capacity_block(ctx, falcon, seqs):
+    """The capacity that bounds a session is the one CONFIGURED (app.ws_options.max_receive_queue) when the
+    connection is made.  Binding (C18_bounded / C18_passthrough read on the server side: messages pulled and
+    not yet delivered <= capacity + 1, none in the background for capacity 0) and FIFO delivery; advisory tie
+    of the app glue to the modelled object: same pull count as WebSocket(..., capacity, ...) directly."""
+    bad = False
+    for capseq in seqs:
+        capseq = list(capseq)
+        nmsg = max(capseq) + 3
+        want = ['m%d' % i for i in range(nmsg)]
+        try:
+            direct = configured_capacity_runs(falcon, capseq, 'direct')
+        except Exception as e:  # noqa: BLE001
+            direct = None
+            ctx.advisory.append({'configured-capacity direct run failed': repr(e)[:200]})
+        for mode in ('reused', 'fresh'):
+            ctx.note_case(('capseq', mode, tuple(capseq)), True)
+            try:
+                runs = configured_capacity_runs(falcon, capseq, mode)
+            except Exception as e:  # noqa: BLE001
+                bad = True
+                ctx.violation('c18-configured-capacity-session-fails',
+                              {'capseq': capseq, 'mode': mode, 'error': repr(e)[:300]}, key='capseq-fails')
+                continue
+            for i, (cap, r) in enumerate(zip(capseq, runs)):
+                ctx.count('configured-capacity-connection')
+                limit = cap + 1 if cap > 0 else 0
+                if r is None or r[0] > limit or r[1] != want:
+                    bad = True
+                    ctx.violation('c18-configured-capacity-not-respected',
+                                  {'what': 'connection %d of the sequence: max_receive_queue=%d was configured '
+                                           'before the connection; while the application idled the framework '
+                                           'pulled %s message(s) from the server (allowed: %d), then delivered '
+                                           '%s' % (i, cap, None if r is None else r[0], limit,
+                                                   None if r is None else r[1]),
+                                   'capseq': capseq, 'mode': mode, 'index': i, 'cap': cap, 'limit': limit,
+                                   'pulled_while_idle': None if r is None else r[0],
+                                   'delivered': None if r is None else r[1], 'expected_delivery': want},
+                                  key='capseq-bound')
+                elif direct is not None and direct[i] is not None and direct[i][0] != r[0]:
+                    ctx.violation('c18-app-session-differs-from-configured-websocket',
+                                  {'what': 'the session the app creates for max_receive_queue=%d pulls %d '
+                                           'message(s) while idle, WebSocket(..., %d, ...) itself pulls %d: the '
+                                           'configured capacity is not the one the session runs with'
+                                           % (cap, r[0], cap, direct[i][0]),
+                                   'capseq': capseq, 'mode': mode, 'index': i,
+                                   'broken': 'C18.app_configures_modelled_session'},
+                                  found_input=False, key='capseq-glue')
+    return bad
+
+
+def capacity_sequences(ctx):
+    import random
+    rng = random.Random(ctx.seed * 7 + 18)
+    seqs = [(4, 1, 2, 0, 3), (0, 2), (3, 0, 1), (1, 1, 5), (2,), (0,)]
+    for _ in range(3 if ctx.tier == 'quick' else 40):
+        seqs.append(tuple(rng.choice([0, 0, 1, 1, 2, 3, 5, 8]) for _ in range(rng.randint(2, 5))))
+    return seqs
+
+
+
 # --------------------------------------------------------------------------- entry points
 
 
@@ -633,6 +775,8 @@ def main(ctx):
                        'impl': w, 'expected': 'm1', 'clauses_failed': [7],
                        'cap': 1, 'sent': [['m', 1], ['m', 2], ['m', 3]],
                        'labels': [[1], [0], [1], [0], [1], [6], [2]]}, key='clause-[7]')
+    # the capacity a session runs with is the configured one (app glue)
+    any_clause |= configured_capacity_block(ctx, falcon, capacity_sequences(ctx))
     quick = ctx.tier == 'quick'
     # 1. exhaustive small bounds
     ex_runs = []
@@ -697,6 +841,10 @@ def main(ctx):
 def replay(ctx, obj):
     import falcon
     model = common.Model(ctx)
+    if 'capseq' in obj:
+        configured_capacity_block(ctx, falcon, [obj['capseq']])
+        ctx.note_case('replay-capseq', True)
+        return
     if 'labels' not in obj:
         return main(ctx)
     sent = [tuple(e) for e in obj['sent']]
